@@ -103,6 +103,17 @@ PROPS = {
                 'non-trivial = distinct request lines',
         'assumptions': ASSUME_COMMON,
     },
+    'C10': {
+        'lean': ['Purr.Props.C10'],
+        'suites': [
+            {'name': 'events', 'fields': ['B', 'P'], 'nontrivial': lambda rq, resp: True},
+            {'name': 'read', 'fields': ['V', 'EV', 'B'], 'nontrivial': nontrivial_read},
+        ],
+        'rule': 'events: all histories <= 4 events over 12 event shapes (opening and closing ring numbers on the same, adjacent and distant atoms), '
+                'all 64 pairs of bond kinds on the two ends of a closure in four settings, random conformant histories up to 200 events; '
+                'read: accepted strings of the S-read sets. The builder result (graph, Join(a,b) or Rnum(i)) is compared. distinct = request lines',
+        'assumptions': ASSUME_COMMON,
+    },
     'C11': {
         'lean': ['Purr.Props.C11'],
         'suites': [
